@@ -1457,22 +1457,23 @@ def instanceOf (services : List (BList × Service)) (i : MyIntf) (reg : Registry
   | some (_, svc) => if svc.announcedOn i.index && !(addrsOn svc i v4).isEmpty then some svc else none
   | none => none
 
-/-- SRV / TXT answers to SRV / TXT / ANY on the instance name, under the name as asked -/
-def instRule (qname : BList) (qtype : Nat) : Option Service → List RR
+/-- SRV / TXT answers to SRV / TXT / ANY on the instance name, under the name as asked; the SRV
+    target is the CURRENT host name of the service (resolved through the name changes) -/
+def instRule (reg : Registry) (qname : BList) (qtype : Nat) : Option Service → List RR
   | none => []
   | some svc =>
     (if qtype == TYPE_SRV || qtype == TYPE_ANY then
-      [{ name := qname, ty := TYPE_SRV, flush := true, ttl := TTL_HOST, rdata := .srv 0 0 svc.port svc.host : RR }] else []) ++
+      [{ name := qname, ty := TYPE_SRV, flush := true, ttl := TTL_HOST, rdata := .srv 0 0 svc.port (reg.resolveName svc.host) : RR }] else []) ++
     (if qtype == TYPE_TXT || qtype == TYPE_ANY then
       [{ name := qname, ty := TYPE_TXT, flush := true, ttl := TTL_OTHER, rdata := .txt svc.txt : RR }] else [])
 
-/-- the address additionals of an SRV answer -/
-def instAdditionals (i : MyIntf) (v4 : Bool) (qtype : Nat) : Option Service → List RR
+/-- the address additionals of an SRV answer, under the current host name -/
+def instAdditionals (reg : Registry) (i : MyIntf) (v4 : Bool) (qtype : Nat) : Option Service → List RR
   | none => []
   | some svc =>
     if qtype == TYPE_SRV then
       (addrsOn svc i v4).map fun ip =>
-        { name := svc.host, ty := addrType ip, flush := true, ttl := TTL_HOST, rdata := addrRData ip }
+        { name := reg.resolveName svc.host, ty := addrType ip, flush := true, ttl := TTL_HOST, rdata := addrRData ip }
     else []
 
 /-- the answers the statement asks for, for one question (before known-answer suppression) -/
@@ -1480,13 +1481,13 @@ def specAnswers (services : List (BList × Service)) (i : MyIntf) (reg : Registr
   if q.ty == TYPE_PTR then services.flatMap fun e => ptrRule i reg v4 q.name e.2
   else
     (if q.ty == TYPE_A || q.ty == TYPE_AAAA || q.ty == TYPE_ANY then services.flatMap fun e => addrRule i reg q.name q.ty e.2 else []) ++
-    instRule q.name q.ty (instanceOf services i reg v4 q.name)
+    instRule reg q.name q.ty (instanceOf services i reg v4 q.name)
 
 /-- the additionals for one question -/
 def specAdditionals (known : List Wire.Rec) (services : List (BList × Service)) (i : MyIntf) (reg : Registry) (v4 : Bool)
     (q : Wire.Question) : List RR :=
   if q.ty == TYPE_PTR then services.flatMap fun e => ptrAdditionals known i reg v4 q.name e.2
-  else instAdditionals i v4 q.ty (instanceOf services i reg v4 q.name)
+  else instAdditionals reg i v4 q.ty (instanceOf services i reg v4 q.name)
 
 theorem addAnswer_answers (r : Resp) (known : List Wire.Rec) (a : RR) :
     (r.addAnswer known a).answers = r.answers ++ [a].filter (kept known) ∧ (r.addAnswer known a).additionals = r.additionals := by
@@ -1564,19 +1565,21 @@ theorem condAdd_spec (c : Bool) (r : Resp) (known : List Wire.Rec) (a : RR) :
   · simp
   · simpa using addAnswer_answers r known a
 
-theorem addAnswerOfService_spec (known : List Wire.Rec) (qname : BList) (qtype : Nat) (svc : Service) (addrs : List Ip) (r : Resp) :
-    (addAnswerOfService known qname qtype svc addrs r).answers = r.answers ++ (instRule qname qtype (some svc)).filter (kept known) ∧
-    (addAnswerOfService known qname qtype svc addrs r).additionals = r.additionals ++
+theorem addAnswerOfService_spec (known : List Wire.Rec) (reg : Registry) (qname : BList) (qtype : Nat) (svc : Service)
+    (addrs : List Ip) (r : Resp) :
+    (addAnswerOfService known qname qtype svc (reg.resolveName svc.host) addrs r).answers =
+      r.answers ++ (instRule reg qname qtype (some svc)).filter (kept known) ∧
+    (addAnswerOfService known qname qtype svc (reg.resolveName svc.host) addrs r).additionals = r.additionals ++
       (if (qtype == TYPE_SRV) = true then
-        addrs.map fun ip => ({ name := svc.host, ty := addrType ip, flush := true, ttl := TTL_HOST, rdata := addrRData ip } : RR)
+        addrs.map fun ip => ({ name := reg.resolveName svc.host, ty := addrType ip, flush := true, ttl := TTL_HOST, rdata := addrRData ip } : RR)
        else []) := by
   unfold addAnswerOfService instRule
   simp only []
   have h1 := condAdd_spec (qtype == TYPE_SRV || qtype == TYPE_ANY) r known
-    { name := qname, ty := TYPE_SRV, flush := true, ttl := TTL_HOST, rdata := .srv 0 0 svc.port svc.host }
+    { name := qname, ty := TYPE_SRV, flush := true, ttl := TTL_HOST, rdata := .srv 0 0 svc.port (reg.resolveName svc.host) }
   have h2 := condAdd_spec (qtype == TYPE_TXT || qtype == TYPE_ANY)
     (if (qtype == TYPE_SRV || qtype == TYPE_ANY) = true then
-      r.addAnswer known { name := qname, ty := TYPE_SRV, flush := true, ttl := TTL_HOST, rdata := .srv 0 0 svc.port svc.host }
+      r.addAnswer known { name := qname, ty := TYPE_SRV, flush := true, ttl := TTL_HOST, rdata := .srv 0 0 svc.port (reg.resolveName svc.host) }
      else r) known
     { name := qname, ty := TYPE_TXT, flush := true, ttl := TTL_OTHER, rdata := .txt svc.txt }
   split
@@ -1586,9 +1589,9 @@ theorem addAnswerOfService_spec (known : List Wire.Rec) (qname : BList) (qtype :
 theorem answerInstance_spec (known : List Wire.Rec) (services : List (BList × Service)) (i : MyIntf) (reg : Registry)
     (v4 : Bool) (qname : BList) (qtype : Nat) (r : Resp) :
     (answerInstance known services i reg v4 qname qtype r).answers =
-      r.answers ++ (instRule qname qtype (instanceOf services i reg v4 qname)).filter (kept known) ∧
+      r.answers ++ (instRule reg qname qtype (instanceOf services i reg v4 qname)).filter (kept known) ∧
     (answerInstance known services i reg v4 qname qtype r).additionals =
-      r.additionals ++ instAdditionals i v4 qtype (instanceOf services i reg v4 qname) := by
+      r.additionals ++ instAdditionals reg i v4 qtype (instanceOf services i reg v4 qname) := by
   unfold answerInstance instanceOf
   split
   · rename_i hf
@@ -1600,7 +1603,7 @@ theorem answerInstance_spec (known : List Wire.Rec) (services : List (BList × S
       · simp [ha, hne, instRule, instAdditionals]
       · have hne' : (addrsOn svc i v4).isEmpty = false := by simpa using hne
         simp only [ha, hne, hne', Bool.not_true, Bool.false_eq_true, ↓reduceIte, Bool.not_false, Bool.and_self]
-        have := addAnswerOfService_spec known qname qtype svc (addrsOn svc i v4) r
+        have := addAnswerOfService_spec known reg qname qtype svc (addrsOn svc i v4) r
         simpa [instAdditionals] using this
     · simp [ha, instRule, instAdditionals]
 
@@ -1704,8 +1707,8 @@ theorem addrRule_ok {i : MyIntf} {reg : Registry} {qname : BList} {qtype : Nat} 
         · exact addrRecord_ok i svc false _ ip hip
         · simp at hip
 
-theorem instRule_ok {i : MyIntf} {qname : BList} {qtype : Nat} {o : Option Service} {a : RR}
-    (h : a ∈ instRule qname qtype o) : RecordOk i a := by
+theorem instRule_ok {i : MyIntf} {reg : Registry} {qname : BList} {qtype : Nat} {o : Option Service} {a : RR}
+    (h : a ∈ instRule reg qname qtype o) : RecordOk i a := by
   cases o with
   | none => simp [instRule] at h
   | some svc =>
@@ -1720,8 +1723,8 @@ theorem instRule_ok {i : MyIntf} {qname : BList} {qtype : Nat} {o : Option Servi
         subst h; exact Or.inr (Or.inl ⟨rfl, rfl, rfl⟩)
       · simp at h
 
-theorem instAdditionals_ok {i : MyIntf} {v4 : Bool} {qtype : Nat} {o : Option Service} {a : RR}
-    (h : a ∈ instAdditionals i v4 qtype o) : RecordOk i a := by
+theorem instAdditionals_ok {i : MyIntf} {reg : Registry} {v4 : Bool} {qtype : Nat} {o : Option Service} {a : RR}
+    (h : a ∈ instAdditionals reg i v4 qtype o) : RecordOk i a := by
   cases o with
   | none => simp [instAdditionals] at h
   | some svc =>
